@@ -53,6 +53,10 @@ def check(R, tier):
                 R.obligation('Ok => trusted root is the last root of the reference walk', p.pc, doc_id(p.payload) == final, decode=dec, group='final-is-reference')
                 R.obligation('Ok => shipped root verified under its own keys', p.pc, V(P.shipped, P.shipped), decode=dec, group='shipped-self-verified')
                 R.obligation('Ok => final version >= shipped version', p.pc, z3.UGE(Ver(doc_id(p.payload)), Ver(P.shipped)), decode=dec, group='never-below-shipped')
+                # the budget is counted in versions and checked before every request: a walk only ends well on a root below shipped + max_root_updates
+                # (beyond it the cycle fails with MaxUpdatesExceeded; it never ends quietly on that root while further roots may be on offer)
+                R.obligation('Ok => the walk did not end because the update budget ran out (final version < shipped version + max_root_updates)', p.pc,
+                             z3.Implies(z3.BVAddNoOverflow(Ver(P.shipped), P.max_updates, False), z3.ULT(Ver(doc_id(p.payload)), Ver(P.shipped) + P.max_updates)), decode=dec, group='budget-not-silently-exhausted')
                 for i in range(len(parses)):
                     R.obligation(f'Ok => hop {i} was verified under the CURRENT root and under ITSELF and is not older', p.pc,
                                  z3.And(V(curs[i], P.hop[i]), V(P.hop[i], P.hop[i]), z3.ULE(Ver(curs[i]), Ver(P.hop[i]))), decode=dec, group='hop-double-signed')
